@@ -209,6 +209,8 @@ def rule_tokens(ctx):
             for c in cons:
                 if c[3][0] == "call" and "eq" in c[3][1] and True in c[1]:
                     idxs = [ceval(y[2]) for y in walk(c[3]) if isinstance(y, tuple) and y[0] == "index"]
+                    # `match args.get(i) { Some(&"moves") .. }`: the same token, read with get
+                    idxs += [ceval(y[2][1]) for y in walk(c[3]) if isinstance(y, tuple) and y[0] == "call" and isinstance(y[1], str) and y[1].endswith("]>::get") and len(y[2]) == 2 and ceval(y[2][1]) is not None]
                     strs = [x[1] for x in walk(c[3]) if isinstance(x, tuple) and x[0] == "const" and isinstance(x[1], str)]
                     kwi.append((idxs[0] if idxs else None, strs[0] if strs else None))
             where = ctxs[-1] if ctxs else ("fen-slice" if hi is not None else None)
